@@ -72,19 +72,45 @@ void runFs(const Scn &scn, Out &out)
     urlOracle(stream, out);
     fsOracle(out);
 
-    FilesystemHandler handler(QString::fromUtf8(root));
+    QPointer<FilesystemHandler> handlerP = new FilesystemHandler(QString::fromUtf8(root));
+    FilesystemHandler &handler = *handlerP;
     QPointer<SimTcp> tcp = new SimTcp;
     tcp->log = obs;
     QPointer<Socket> sock;
     int k = 0;
     foreach (const QString &t, events) {
         QStringList p = t.split(':');
+        if (p[0] == "warm") {
+            // an earlier request, on another connection, served by the same handler object; not observed: what
+            // the handler answers later must not depend on it
+            if (!handlerP) continue;
+            QStringList sink2;
+            QPointer<SimTcp> wt = new SimTcp;
+            wt->log = &sink2;
+            QPointer<Socket> ws = new Socket(wt);
+            Socket *w = ws;
+            FilesystemHandler *hp2 = handlerP;
+            QObject::connect(w, &Socket::headersParsed, [hp2, w]() { hp2->route(w, w->path().mid(1)); });
+            wt->feed("GET " + unhx(p[1]) + " HTTP/1.1\r\n\r\n");
+            for (int i = 0; i < 6; ++i) { eventTurn(); if (wt) wt->ackAll(); }
+            if (wt) { wt->log = nullptr; wt->peerClose(); }
+            eventTurn();
+            if (ws) delete ws.data();
+            eventTurn();
+            continue;
+        }
+        if (p[0] == "killhandler") {
+            // the handler object goes away while the response it started is under way (the file and the copier of
+            // that response do not belong to it)
+            if (handlerP) delete handlerP.data();
+            continue;
+        }
         if (!(k > 0 && !sock)) *obs << QString("e:%1").arg(k);
         ++k;
         if (p[0] == "new") {
             sock = new Socket(tcp);
             Socket *s = sock;
-            QObject::connect(s, &Socket::headersParsed, [&handler, s, obs]() { obs->append("hp"); handler.route(s, s->path().mid(1)); });
+            QObject::connect(s, &Socket::headersParsed, [handlerP, s, obs]() { obs->append("hp"); if (handlerP) handlerP->route(s, s->path().mid(1)); });
             QObject::connect(s, &Socket::disconnected, [obs]() { obs->append("dc"); });
             QObject::connect(s, &QObject::destroyed, [obs]() { obs->append("del"); });
         } else if (p[0] == "feed") { if (tcp) tcp->feed(unhx(p[1])); }
@@ -100,5 +126,6 @@ void runFs(const Scn &scn, Out &out)
     if (sock) delete sock.data();
     if (tcp) delete tcp.data();      // a scenario without `new`: nothing took ownership of the transport
     eventTurn();
+    if (handlerP) delete handlerP.data();
     eventTurn();
 }
